@@ -1,5 +1,5 @@
 """C09 - STARK proofs are accepted exactly for traces that satisfy the constraints (structural clauses)."""
-from . import ob, flow, zips, c04, transcript, interval
+from . import ob, flow, zips, c04, transcript, interval, pins
 from .facts import walk, parse_path
 
 FILTERS = {'z_last', 'lagrange_basis_first', 'lagrange_basis_last'}
@@ -123,6 +123,9 @@ def run(F, ck, tier):
     else:
         n = zips.check_zips(ck, 'R09.5', F, e, {'stark', 'config', 'challenges', 'ctl_vars', 'public_inputs'}, ['starky/src/verifier.rs', 'fri/verifier.rs', 'fri/validate_shape.rs'], depth=5, label='stark')
         ck.floor('R09.5', 'zip operands in the STARK verifier closure', n, 4)
+    # R09.9 every length / presence of the STARK proof is pinned before use
+    ck.rule('R09.9', 'every Vec length, cap height and Option presence in the STARK proof type is pinned by an equality guard that must hold (a disjunct another disjunct can satisfy does not count)')
+    pins.check(F, ck, 'R09.9', labels={'stark'}, floor=10)
     # R09.6 cap order (native and circuit)
     for fq in ('starky::verifier::verify_stark_proof_with_challenges', 'starky::recursive_verifier::verify_stark_proof_with_challenges_circuit'):
         fn = F.one(fq, crate='starky')
